@@ -9,7 +9,7 @@ Import ListNotations.
 From GA.Base Require Import Bytes Align Tape.
 From GA.Gen Require Import Alpha.
 From GA.Model Require Import Random.
-From GA.Proofs Require Import RandomProofs.
+From GA.Proofs Require Import RandomProofs RandomOpsProofs.
 Local Open Scope Z_scope.
 
 (* Intn(n) over any tape of non-negative raw values lies in [0, n) *)
@@ -72,10 +72,107 @@ Theorem C10_shuffle_is_row_permutation :
 Proof. exact shuffle_is_row_permutation. Qed.
 Print Assumptions C10_shuffle_is_row_permutation.
 
-(* The remaining invariants (column multisets of the site shuffles, rogue partition, gap-only and
-   substitution-only edits) are not proved for the model in this revision: the model reproduces the
-   code exactly on every generated (seed, operation) pair and Corr/C10.v spec_check judges each
-   observed result against the promised invariant (bounded validation). *)
+(* ---- the editing operations, for EVERY tape (Proofs/RandomOpsProofs.v) ------------------------------- *)
+(* names, number of rows and row lengths never change *)
+Theorem C10_edits_keep_shape :
+  (forall rate roguerate roguefirst rs t out rogues r,
+     shuffle_sites rate roguerate roguefirst rs t = Some ((out, rogues), r) -> shape out = shape rs) /\
+  (forall rate pos rs t out r, swap rate pos rs t = Some (out, r) -> shape out = shape rs) /\
+  (forall prop lenprop sw rs t out r, recombine prop lenprop sw rs t = Some (out, r) -> shape out = shape rs) /\
+  (forall lenprop prop rs t out r, add_gaps lenprop prop rs t = Some (out, r) -> shape out = shape rs) /\
+  (forall alphabet rate rs t out r, mutate alphabet rate rs t = Some (out, r) -> shape out = shape rs).
+Proof.
+  exact (conj shuffle_sites_keeps_shape (conj swap_keeps_shape (conj recombine_keeps_shape
+          (conj add_gaps_keeps_shape mutate_keeps_shape)))).
+Qed.
+Print Assumptions C10_edits_keep_shape.
+
+(* site shuffling (with rogues) permutes characters within columns only: every column of the result is a
+   permutation of the same column of the input *)
+Theorem C10_shuffle_sites_permutes_within_columns :
+  forall L rate roguerate roguefirst rs t out rogues r,
+  tape_ok t -> rect L rs -> 0 < alen rs ->
+  shuffle_sites rate roguerate roguefirst rs t = Some ((out, rogues), r) ->
+  shape out = shape rs /\ forall j, Permutation.Permutation (col out j) (col rs j).
+Proof. exact shuffle_sites_keeps_columns. Qed.
+Print Assumptions C10_shuffle_sites_permutes_within_columns.
+
+(* swaps preserve every column's character multiset *)
+Theorem C10_swap_preserves_column_multisets :
+  forall L rate pos rs t out r,
+  tape_ok t -> rect L rs -> swap rate pos rs t = Some (out, r) ->
+  shape out = shape rs /\ forall j, Permutation.Permutation (col out j) (col rs j).
+Proof. exact swap_keeps_columns. Qed.
+Print Assumptions C10_swap_preserves_column_multisets.
+
+(* recombination only copies residues between rows at the same column *)
+Theorem C10_recombine_copies_within_columns :
+  forall L prop lenprop sw rs t out r,
+  tape_ok t -> rect L rs -> recombine prop lenprop sw rs t = Some (out, r) ->
+  shape out = shape rs /\ forall j x, In x (col out j) -> In x (col rs j).
+Proof. exact recombine_copies_within_columns. Qed.
+Print Assumptions C10_recombine_copies_within_columns.
+
+(* added gaps only turn cells into gaps *)
+Theorem C10_add_gaps_only_adds_gaps :
+  forall lenprop prop rs t out r, add_gaps lenprop prop rs t = Some (out, r) ->
+  forall i j, cell out i j = cell rs i j \/ cell out i j = GAP.
+Proof. exact add_gaps_only_adds_gaps. Qed.
+Print Assumptions C10_add_gaps_only_adds_gaps.
+
+(* substitutions never touch a gap, '.' or '*' *)
+Theorem C10_mutate_keeps_gaps :
+  forall alphabet rate rs t out r, mutate alphabet rate rs t = Some (out, r) ->
+  forall i j, special_cell (cell rs i j) = true -> cell out i j = cell rs i j.
+Proof. exact mutate_keeps_special. Qed.
+Print Assumptions C10_mutate_keeps_gaps.
+
+(* Go's rand.Perm (inside-out Fisher-Yates, as modelled) returns a permutation of 0 .. n-1 for every tape *)
+Theorem C10_perm_is_a_permutation :
+  forall n t p r, tape_ok t -> zperm n t = Some (p, r) -> Permutation.Permutation p (zs (Z.to_nat n)).
+Proof. exact zperm_is_permutation. Qed.
+Print Assumptions C10_perm_is_a_permutation.
+
+(* sequence sampling draws distinct original rows *)
+Theorem C10_sample_draws_distinct_rows :
+  forall nb rs t out r, tape_ok t -> sample_rows nb rs t = Some (Some out, r) ->
+  exists idx, NoDup idx /\ (forall k, In k idx -> 0 <= k < nrows rs) /\ length idx = Z.to_nat nb /\
+              out = map (fun k => nth (Z.to_nat k) rs ([], [])) idx.
+Proof. exact sample_rows_distinct. Qed.
+Print Assumptions C10_sample_draws_distinct_rows.
+
+(* site sampling, scattered mode, draws distinct columns *)
+Theorem C10_site_sampling_draws_distinct_columns :
+  forall len rs t out r, tape_ok t -> rand_sub_align len false rs t = Some (Some out, r) ->
+  exists idx, NoDup idx /\ (forall k, In k idx -> 0 <= k < alen rs) /\ length idx = Z.to_nat len /\ out = pick_cols rs idx.
+Proof. exact rand_sub_align_distinct. Qed.
+Print Assumptions C10_site_sampling_draws_distinct_columns.
+
+(* rogue simulation keeps names and row lengths, and the rogue and intact names it reports together are the
+   names of the rows, each once (for a proportion of rogues within [0, 1]) *)
+Theorem C10_rogue_names_partition_rows :
+  forall prop proplen rs t rogue intact out r,
+  tape_ok t ->
+  0 <= scale (if Qeq_bool proplen 0 then 0%Q else prop) (nrows rs) <= nrows rs ->
+  simulate_rogue prop proplen rs t = Some ((rogue, intact, out), r) ->
+  Permutation.Permutation (rogue ++ intact) (map fst rs) /\ shape out = shape rs.
+Proof.
+  intros prop proplen rs t rogue intact out r Ht Hnb H. split;
+    [exact (rogue_names_partition_rows prop proplen rs t rogue intact out r Ht Hnb H)
+    | exact (simulate_rogue_keeps_shape prop proplen rs t rogue intact out r H)].
+Qed.
+Print Assumptions C10_rogue_names_partition_rows.
+
+(* substitutions only replace residues (never a gap, '.' or '*') by letters of the alphabet *)
+Theorem C10_mutate_substitutes_letters_for_residues :
+  forall alphabet rate rs t out r, tape_ok t -> mutate alphabet rate rs t = Some (out, r) ->
+  forall i j, cell out i j = cell rs i j \/
+              (special_cell (cell rs i j) = false /\ In (cell out i j) (mut_letters alphabet)).
+Proof. exact mutate_substitutes_letters_for_residues. Qed.
+Print Assumptions C10_mutate_substitutes_letters_for_residues.
+
+(* Still judged per case only (Corr/C10.v spec_check): that rogue simulation permutes residues within the
+   chosen rows only. *)
 Example C10_nonvacuous :
   let rs := [([x61], [x41; x43; x47]); ([x62], [x54; x54; x41])] in
   build_bootstrap 1 rs [2 * 2 ^ 32; 0; 1 * 2 ^ 32] =
